@@ -231,10 +231,12 @@ def run_mass(case):
                     burn = float(want[0] - want[-1])
                     for mtow, oew in ((1200.0, 900.0), (950.0, 900.0), (5000.0, 200.0)):
                         for meth, rf in (('iterate_flight_simulation_fuel_burn_dependent_initial_mass_rf_fraction', 0.1), ('iterate_flight_simulation_fuel_burn_dependent_initial_mass_rf_value', 5.0)):
-                            got = getattr(model, meth)(*args, float(case['anchor']), mtow, oew, 100.0, 0.5, rf, n_iter=4)
+                          # BadaMass.tla IterCounts: every iteration count, also a single one and the default
+                          for n_it in (1, 2, 4, None):
+                            got = getattr(model, meth)(*args, float(case['anchor']), mtow, oew, 100.0, 0.5, rf, **({} if n_it is None else {'n_iter': n_it}))
                             got = np.asarray(got, float)
                             if got[0] > mtow + 1e-9:
-                                devs.append(('fuel-dependent:above-mtow', f'{meth}: initial mass {got[0]} exceeds MTOW {mtow}'))
+                                devs.append(('fuel-dependent:above-mtow', f'{meth} (n_iter={n_it}, estimate {case["anchor"]}): initial mass {got[0]} exceeds MTOW {mtow}'))
                             if np.any(np.diff(got[1:]) > 1e-9):
                                 devs.append(('fuel-dependent:increasing', f'{meth}: mass increases after the first step: {got.tolist()}'))
                             if got[1] > got[0] + 1e-9 or abs((got[0] - got[1]) - (want[0] - want[1])) > 1e-9 * max(1.0, burn):
